@@ -238,8 +238,44 @@ AlgoCases ==
         c = C("gaussJordan", <<an, am, xn, xm, b>>, <<>>, <<>>,
               IF ~(an = am /\ xn = an /\ xm = an /\ b = an) THEN "reject" ELSE IF an = 0 THEN "any" ELSE "ok", <<xn, xm>>)
 
+(* ------------------------------------------------------ option values *)
+(* Optional arguments whose admissible values the sources state (doc       *)
+(* comments and the error / panic texts of the argument checks):           *)
+ByReference  == {"qrAlgorithm", "svd", "hessenbergReduction", "householderBidiagonalization",
+                 "householderTridiagonalization", "matrixInverse", "cholesky", "determinant",
+                 "backSubstitution", "newtonRoot", "newtonMin", "saga"}
+ClosedOptions == {"rprop", "bfgs", "gradientDescent", "adam", "saga", "determinant", "cholesky", "gaussJordan"}
+OptionCases ==
+     \* rprop.Run(f, x0, step, eta): "Argument eta must have length two"
+  \/ \E l \in 0..3 :
+        c = C("opt.rprop.eta", <<l>>, <<>>, <<>>, Cls(l = 2), <<>>)
+     \* bfgs.Run(f, x0, Hessian{B0}): B0 must be n x n for x0 of length n
+  \/ \E n \in 1..2, hn \in D, hm \in D :
+        c = C("opt.bfgs.Hessian", <<n, hn, hm>>, <<>>, <<>>, Cls(hn = n /\ hm = n), <<n>>)
+     \* saga: regularisation constants must not be negative, at most one may be set
+  \/ \E l1 \in -1..1, l2 \in -1..1, ti \in -1..1 :
+        c = C("opt.saga.regularization", <<1>>, <<l1, l2, ti>>, <<>>,
+              Cls(l1 >= 0 /\ l2 >= 0 /\ ti >= 0 /\ Cardinality({k \in 1..3 : <<l1, l2, ti>>[k] # 0}) <= 1), <<>>)
+     \* determinant: "Parameter LogScale is valid only for positive definite matrices"
+  \/ \E pd \in 0..1, lg \in 0..1 :
+        c = C("opt.determinant.LogScale", <<2>>, <<pd, lg>>, <<>>, Cls(lg = 0 \/ pd = 1), <<>>)
+     \* "InSitu must be passed by reference"
+  \/ \E r \in ByReference :
+        c = C("opt.InSituByValue." \o r, <<2>>, <<>>, <<>>, "reject", <<>>)
+     \* routines that document a closed set of options: anything else is invalid
+  \/ \E r \in ClosedOptions :
+        c = C("opt.UnknownOption." \o r, <<2>>, <<>>, <<>>, "reject", <<>>)
+     \* pre-allocated work space of the wrong shape: H of qrAlgorithm (n x n), X of
+     \* backSubstitution (n), Q of gramSchmidt (n x m)
+  \/ \E n \in 1..3, hn \in D, hm \in D :
+        c = C("opt.qrAlgorithm.InSitu.H", <<n, hn, hm>>, <<>>, <<>>, Cls(hn = n /\ hm = n), <<n, n>>)
+  \/ \E n \in 1..3, xn \in D :
+        c = C("opt.backSubstitution.InSitu.X", <<n, xn>>, <<>>, <<>>, Cls(xn = n), <<n>>)
+  \/ \E n \in 1..3, qn \in D, qm \in D :
+        c = C("opt.gramSchmidt.InSitu.Q", <<n, qn, qm>>, <<>>, <<>>, Cls(qn = n /\ qm = n), <<n, n>>)
+
 (* -------------------------------------------------------------- output *)
-Init == VectorCases \/ MatrixCases \/ PermuteCases \/ RealCases \/ AlgoCases
+Init == VectorCases \/ MatrixCases \/ PermuteCases \/ RealCases \/ AlgoCases \/ OptionCases
 Next == UNCHANGED c
 Spec == Init /\ [][Next]_c
 
